@@ -9,3 +9,7 @@ import SigpyVerif.Props.C19
 import SigpyVerif.Props.C20
 import SigpyVerif.Props.C01
 import SigpyVerif.Props.C04
+import SigpyVerif.Props.C07
+import SigpyVerif.Props.C06
+import SigpyVerif.Props.C10
+import SigpyVerif.Props.C14
